@@ -427,7 +427,8 @@ C17_THEMES = [
     Theme('combs', [['pair int nat string', 'int'], ['int', 'pair int nat string bool'], ['pair (pair int nat) string', 'int'],
                     ['pair int (or nat string) (option (pair int int))'], ['list (pair int nat string)', 'pair int nat string'],
                     ['map (pair int nat) (pair string bool unit)', 'pair int nat'], ['or (pair int nat string) (pair int int)'],
-                    ['option (pair int nat string bytes)'], ['pair int nat string', 'pair int nat string'], ['int', 'nat', 'string', 'bool']],
+                    ['option (pair int nat string bytes)'], ['pair int nat string', 'pair int nat string'], ['int', 'nat', 'string', 'bool'],
+                    ['pair (pair int nat string bool) int'], ['or (pair int nat string bool) (list (pair int nat string bool))']],
           S_('CAR', 'CDR', 'UNPAIR', 'PAIR', 'PACK', 'DUP', 'SWAP', 'SOME', 'COMPARE', 'CONS', 'GET', 'MEM', 'SIZE')
           + [g_num('UNPAIR', 2), g_num('GET', 0), g_num('UPDATE', 0), g_num('PAIR', 2), g_push_same, g_if('IF_LEFT'), g_if('IF_NONE'), g_if('IF_CONS'),
              g_map, g_iter, g_typed('LEFT', 'pool'), g_typed('RIGHT', 'pool'), g_typed('NIL'), g_typed('NONE'), g_typed('EMPTY_SET'), g_empty_map, g_lambda_exec],
